@@ -533,9 +533,31 @@ func (g *c02Gen) script() []Op {
 	case x < 55: // a name without a value
 		ops = append(ops, Op{Kind: opTok, Arg: tokBeginObject}, Op{Kind: opName}, Op{Kind: opTok, Arg: tokEndObject})
 		g.hit("script:name-without-value")
-	case x < 63: // the container escape
+	case x < 59: // the container escape
 		ops = append(ops, Op{Kind: opEscape})
 		g.hit("script:escape")
+	case x < 61: // … through several levels
+		ops = append(ops, Op{Kind: opDeepEscape, Arg: 2 + g.n(3)})
+		g.hit("script:deep-escape")
+	case x < 62: // … attempted by a MarshalToFunc that runs inside a container opened by this script
+		ops = append(ops, Op{Kind: opNestedEscape, Arg: 1 + g.n(3)})
+		g.hit("script:nested-escape")
+	case x < 63: // … blindly: k closing tokens of random kinds, k opening ones, some values
+		k := 1 + g.n(3)
+		for i := 0; i < k; i++ {
+			ops = append(ops, Op{Kind: opTok, Arg: []int{tokEndObject, tokEndArray}[g.n(2)]})
+		}
+		for i := 0; i < k; i++ {
+			ops = append(ops, Op{Kind: opTok, Arg: []int{tokBeginObject, tokBeginArray}[g.n(2)]})
+		}
+		for i, n := 0, g.n(4); i < n; i++ {
+			if g.p(0.3) {
+				ops = append(ops, Op{Kind: opName})
+			} else {
+				ops = append(ops, Op{Kind: opOneValue, Arg: g.n(2)})
+			}
+		}
+		g.hit("script:blind-escape")
 	case x < 72: // WriteValue with raw bytes
 		b, cls := g.jsonBytes()
 		ops = append(ops, Op{Kind: opVal, Raw: b})
@@ -1057,9 +1079,15 @@ func (g *c02Gen) genValue(t reflect.Type, d int) reflect.Value {
 	case reflect.Pointer:
 		if g.p(0.2) {
 			g.kind("pointer-nil")
+			if g.pos == "behind-interface" {
+				g.hit("kind:interface-holding-nil-pointer")
+			}
 			return v
 		}
 		g.kind("pointer")
+		if g.pos == "behind-interface" {
+			g.hit("kind:interface-holding-pointer")
+		}
 		p := reflect.New(t.Elem())
 		g.pos = "behind-pointer"
 		p.Elem().Set(g.genValue(t.Elem(), d-1))
@@ -1622,6 +1650,100 @@ func runC02(c *Ctx) {
 	c.Note("oracle `wire valid`: %s", oracleState)
 	c.Note("programs=%d type-group=%d workers=%d; every program is run through 6 entry points", total, group, workers)
 	c02SelfTest(c)
+	c02LegitPrograms(c)
+	c02KnownRepros(c)
+	c02RecoverProbe(c)
+}
+
+// c02RecoverProbe: user code panics inside MarshalEncode, the owner of the Encoder recovers and goes on.  Not part of
+// C02 (no invalid output results: the Encoder answers with an error), recorded as an observation for the evidence.
+func c02RecoverProbe(c *Ctx) {
+	var w c02Writer
+	enc := jsontext.NewEncoder(&w)
+	enc.WriteToken(jsontext.BeginArray)
+	func() {
+		defer func() { recover() }()
+		jsonv2.MarshalEncode(enc, jsonv2.MarshalerTo(c02Panicker{}))
+	}()
+	e1 := enc.WriteToken(jsontext.Int(1))
+	e2 := enc.WriteToken(jsontext.EndArray)
+	if e1 == nil && e2 == nil && c02Validate(w.b, false, false).OK {
+		c.Hit("observation:encoder-usable-after-recovered-user-panic")
+	} else {
+		c.Hit("observation:encoder-refuses-own-container-end-after-recovered-user-panic")
+		c.Note("after a recovered panic of a MarshalJSONTo inside MarshalEncode the Encoder refuses the `]` of the array its owner opened (floor not restored): %v", e2)
+	}
+}
+
+type c02Panicker struct{}
+
+func (c02Panicker) MarshalJSONTo(*jsontext.Encoder) error { panic("c02: user bug") }
+
+// c02KnownRepros runs the minimal programs of the two panics that are still open in /repo, so that every run
+// (whatever the seed) reports them under their own kinds — and notices when they stop reproducing.
+func c02KnownRepros(c *Ctx) {
+	tr := &Trace{}
+	if p := guard(func() { jsonv2.Marshal([]UA{{&Beh{NilOut: true, Bytes: []byte("x"), tr: tr}}}) }); p != nil {
+		c.Violate("panic-appendtext-contract", "repro", nil, map[string]any{"panic": fmt.Sprint(p), "program": "json.Marshal([]UA{..}) with AppendText returning nil"})
+	} else {
+		c.Hit("known-finding-no-longer-reproduces:panic-appendtext-contract")
+	}
+	if p := guard(func() {
+		var w c02Writer
+		enc := jsontext.NewEncoder(&w, jsontext.AllowDuplicateNames(true))
+		enc.WriteToken(jsontext.BeginObject)
+		enc.WriteToken(jsontext.String("p"))
+		jsonv2.MarshalEncode(enc, UIntTo(3), jsontext.AllowDuplicateNames(false)) // writes a value, a NAME, a value
+	}); p != nil {
+		c.Violate("panic-namespace-after-option-change", "repro", nil, map[string]any{"panic": fmt.Sprint(p),
+			"program": "Encoder(AllowDuplicateNames(true)) `{\"p\":` then MarshalEncode(enc, v, AllowDuplicateNames(false)) where v.MarshalJSONTo writes value, name, value"})
+	} else {
+		c.Hit("known-finding-no-longer-reproduces:panic-namespace-after-option-change")
+	}
+}
+
+// c02LegitPrograms: well-behaved user code that opens and closes its OWN containers (also through nested
+// MarshalEncode calls and marshal functions) must keep working — guards against an over-eager policing of user code.
+func c02LegitPrograms(c *Ctx) {
+	tr := &Trace{}
+	one := func(shape int) *Beh { return &Beh{Script: []Op{{Kind: opOneValue, Arg: shape}}, tr: tr} }
+	nested := &Beh{tr: tr, Script: []Op{{Kind: opTok, Arg: tokBeginArray}, {Kind: opNested, Arg: 2}, {Kind: opNested, Arg: 3}, {Kind: opOneValue, Arg: 4},
+		{Kind: opTok, Arg: tokEndArray}}}
+	fn := jsonv2.WithMarshalers(jsonv2.MarshalToFunc(func(e *jsontext.Encoder, _ bool) error { return one(3).run(e) }))
+	viaFunc := &Beh{tr: tr, Script: []Op{{Kind: opTok, Arg: tokBeginObject}, {Kind: opName}}}
+	type tc struct {
+		name string
+		in   any
+		opts []jsonv2.Options
+		want string
+	}
+	cases := []tc{
+		{"top-level", UTo{one(4)}, nil, `{"k":{"k":false},"l":0.25}`},
+		{"slice", []UTo{{one(3)}, {one(2)}, {one(0)}}, nil, `[[null,[]],{},42]`},
+		{"map-value", map[string]UToP{"a": {one(3)}}, nil, `{"a":[null,[]]}`},
+		{"map-key", map[UTo]int{{one(1)}: 1}, nil, `{"v1":1}`},
+		{"struct-field", struct {
+			A UTo `json:"a,omitempty"`
+			B UTo
+		}{UTo{one(2)}, UTo{one(3)}}, nil, `{"B":[null,[]]}`},
+		{"nested-marshal", []UTo{{nested}}, nil, `[[{"a":1},[null,true,"x"],{"k":{"k":false},"l":0.25}]]`},
+		{"func-in-container", []bool{true, false}, []jsonv2.Options{fn}, `[[null,[]],[null,[]]]`},
+		{"func-inside-method", UTo{&Beh{tr: tr, Script: append(viaFunc.Script, Op{Kind: opNested, Arg: 3}, Op{Kind: opTok, Arg: tokEndObject})}}, []jsonv2.Options{fn},
+			`{"u1":[null,[null,[]],"x"]}`},
+	}
+	for _, t := range cases {
+		*tr = Trace{}
+		var out []byte
+		var err error
+		if p := guard(func() { out, err = jsonv2.Marshal(t.in, t.opts...) }); p != nil {
+			c.Panic("legit/"+t.name, nil, p, nil)
+			continue
+		}
+		c.Hit("legit-programs")
+		if err != nil || string(out) != t.want {
+			c.Violate("legit-program-rejected", "legit/"+t.name, out, map[string]any{"want": t.want, "got": string(out), "err": fmt.Sprint(err)})
+		}
+	}
 }
 
 // c02Judge evaluates the predicate for the runs of one case.
@@ -1645,15 +1767,6 @@ func c02Judge(c *Ctx, cs *c02Case, runs []c02Run, hits map[string]int64, pend *[
 				d["panic"] = fmt.Sprint(run.pan)
 				c.Violate("panic-appendtext-contract", run.ep, run.out, d)
 				hits["result:panic-appendtext-contract"]++
-				continue
-			}
-			if legacy, _ := jsonv2.GetOption(jsonv2.JoinOptions(cs.opts...), jsonv1.CallMethodsWithLegacySemantics); legacy &&
-				fmt.Sprint(run.pan) == "reflect: call of reflect.Value.Type on zero Value" && strings.Contains(run.stack, "makeInterfaceArshaler.func1") {
-				// arshal_default.go:1804 `whichMarshaler = t`: a non-empty interface holding a nil pointer under v1 method semantics
-				d := c02Describe(cs, run)
-				d["panic"] = fmt.Sprint(run.pan)
-				c.Violate("panic-legacy-nil-pointer-in-interface", run.ep, run.out, d)
-				hits["result:panic-legacy-nil-pointer-in-interface"]++
 				continue
 			}
 			if run.encDup && !run.callDup && strings.Contains(run.stack, "objectNamespaceStack.Last") {
@@ -1704,9 +1817,6 @@ func c02Judge(c *Ctx, cs *c02Case, runs []c02Run, hits map[string]int64, pend *[
 		}
 		if bad != "" {
 			kind := "invalid-output"
-			if run.tr.Escaped {
-				kind = "container-escape" // the user script closed a container it did not open (see meta/C02.json)
-			}
 			d := c02Describe(cs, run)
 			d["why"] = bad
 			c.Violate(kind, run.ep, run.out, d)
@@ -1746,11 +1856,7 @@ func c02Judge(c *Ctx, cs *c02Case, runs []c02Run, hits map[string]int64, pend *[
 				if base.err != nil {
 					d["marshal_err"] = base.err.Error()
 				}
-				kind := "entry-points-disagree"
-				if run.tr.Escaped || base.tr.Escaped {
-					kind = "container-escape"
-				}
-				c.Violate(kind, run.ep, run.out, d)
+				c.Violate("entry-points-disagree", run.ep, run.out, d)
 			}
 		}
 		hits["agreement-checked"]++
